@@ -605,7 +605,7 @@ func c06Panics(c *Ctx, m *runnerModel) {
 				name := ssaFuncName(f)
 				isStack := strings.Contains(f.String(), "container.Stack[") && (strings.HasPrefix(f.Name(), "Pop") || strings.HasPrefix(f.Name(), "Peek"))
 				if isStack {
-					if strings.Contains(f.String(), "statementQueue") || f.TypeArgs() == nil {
+					if strings.Contains(f.String(), m.queueT.Obj().Name()) || f.TypeArgs() == nil {
 						c.obN("C06.R7", name+"/panic", w.Pos(p.Pos()), true, "empty-stack panic of the continuation stack: every run-time call site is checked below", false)
 					} else {
 						c.obN("C06.R7", name+"/panic", w.Pos(p.Pos()), true, "empty-stack panic of a tree-builder stack: load path only, contained by the recover boundary (C05.R1)", false)
